@@ -175,9 +175,9 @@ PROPS = {
     "C04": {
         "vx": ["cob_identity", "identity", "cob_op"],
         "kx": [],
-        "technique": "Verus contracts on the extracted Identity::action / Revision::accept / lookup::*: delegate gate, signature check against the current document, sink precondition on adopt; Doc::verify_signature, majority arithmetic and the op-level failure frame proved separately",
-        "explanation": "Identity::action (all five arms) is verified: an author who is not a delegate of the current document gets Err; redacting or editing the current revision gets Err; Identity::adopt is only reached for a revision on which a delegate of the current document has recorded an accepting signature that verifies over that revision's blob (Revision::accept verifies with the CURRENT document before recording, duplicate verdicts are errors); the current revision changes only to such a revision. Doc::verify_signature == delegate && ed25519 check; Doc::majority == n/2+1 (strict majority); a failed operation leaves the identity untouched (cob_op).",
-        "not_decided": "The vote COUNT inside Identity::adopt (heads.values().filter(..).count() vs is_majority) and the voiding of other active revisions are iterator/closure code: adopt is a sink with an assumed frame (current stays or becomes id; verdicts/heads untouched). Representation invariant wf() of Identity is assumed, its preservation is not verified. Causal-order evaluation (change graph) is out of reach.",
+        "technique": "Verus contracts on the extracted Identity::action / Revision::{accept, reject} / lookup::* / <Identity as Cob>::from_root, data-structure invariant votes_backed preserved by action: delegate gate, signature check against the current document, sink precondition on adopt; Doc::verify_signature, majority arithmetic and the op-level failure frame proved separately",
+        "explanation": "Identity::action (all five arms) is verified: an author who is not a delegate of the current document gets Err; redacting or editing the current revision gets Err; Identity::adopt is only reached for a revision on which a delegate of the current document has recorded an accepting signature that verifies over that revision's blob (Revision::accept verifies with the CURRENT document before recording, duplicate verdicts are errors); the current revision changes only to such a revision. Every vote that adopt counts stays backed by a recorded valid signature: Identity::action preserves `votes_backed` (each head points at an existing revision whose verdicts record a valid accepting signature of that key over the revision's blob), Revision::accept adds exactly one verdict and Revision::reject is Ok only for a key without a verdict, so a recorded acceptance cannot be overwritten while its vote keeps counting. Doc::verify_signature == delegate && ed25519 check; Doc::majority == n/2+1 (strict majority); a failed operation leaves the identity untouched (cob_op).",
+        "not_decided": "The vote COUNT inside Identity::adopt (heads.values().filter(..).count() vs is_majority) and the voiding of other active revisions are iterator/closure code: adopt is a sink with an assumed frame (current stays or becomes id; verdicts/heads untouched). Representation invariant wf() of Identity is assumed, its preservation is not verified (votes_backed is verified to be preserved by action, relative to adopt's assumed frame). Causal-order evaluation (change graph) is out of reach.",
     },
     "C06": {
         "vx": ["cob_op", "cob_evaluate"],
